@@ -5,7 +5,10 @@ signed permutations; HCP: Miller-Bravais indices) and of the real-space geometry
 sources, is run on every family with indices <= 3 (4 in the thorough tier); its output is compared as a multiset up to
 sign with the extracted model, and checked against an independent Python statement of the property (orthogonality,
 no duplicate up to sign, closure under the point group, the family itself is there, unit/orthogonal vectors, tensors,
-Schmid factors)."""
+Schmid factors).  Interaction matrices: Gallina model of numodis::Hardening (C56IMModel.v), theorems for every list of
+systems (partition, no empty class, classes = orbits of the point group for cubic structures) and for the documented FCC
+family; the real getInteractionMatrixStructure is compared entry for entry with the extracted model (indices <= 2, single
+families and pairs of families) and with the samples of docs/web/singlecrystal.md."""
 import glob, itertools, math, os, re, threading
 from math import gcd
 from vlib import guarded_main, REPO
@@ -295,8 +298,9 @@ def im_descriptions(c):
         D.append(("hcp", [f]))
     # pairs of families (one representative per orbit).  quick: a seeded subset
     k3, k4 = sorted(rep3), sorted(rep4)
-    pairs3 = [(a, b) for a in k3 for b in k3 if a != b]
-    pairs4 = [(a, b) for a in k4 for b in k4 if a != b]
+    # (unordered pairs, the second family listed first for every other pair)
+    pairs3 = [((a, b) if (i + j) % 2 else (b, a)) for i, a in enumerate(k3) for j, b in enumerate(k3) if i < j]
+    pairs4 = [((a, b) if (i + j) % 2 else (b, a)) for i, a in enumerate(k4) for j, b in enumerate(k4) if i < j]
     if c.quick():
         usual3 = [(key3((1, -1, 0), (1, 1, 1)), key3((1, 1, 0), (0, 0, 1))), (key3((1, 1, 1), (1, -1, 0)), key3((1, 1, 1), (1, 1, -2)))]
         pairs3 = usual3 + c.rng.sample(pairs3, 10)
@@ -387,7 +391,7 @@ def check_interaction_matrices(c, drv, mdl):
             blk["L"] = L
             todo.setdefault((cs == "hcp", L), None)
     keys = sorted(todo, key=lambda k: -len(k[1]))
-    chunks = [keys[i::3] for i in range(3)]
+    chunks = [keys[i::2] for i in range(2)]      # two model processes + the Coq thread = 3 jobs
 
     def run_model(ks):
         inp = "\n".join(("im4 " if h else "im3 ") + " ".join(" ".join(map(str, b)) + " " + " ".join(map(str, p)) for (b, p) in L)
@@ -408,7 +412,7 @@ def check_interaction_matrices(c, drv, mdl):
         return list(zip(ks, res))
 
     from concurrent.futures import ThreadPoolExecutor
-    with ThreadPoolExecutor(max_workers=3) as ex:
+    with ThreadPoolExecutor(max_workers=2) as ex:
         for part in ex.map(run_model, [ch for ch in chunks if ch]):
             for k, r in part:
                 todo[k] = r
@@ -442,6 +446,10 @@ def check_interaction_matrices(c, drv, mdl):
                          {"description": desc, "clause": clause, "witness": wit, "matrix": blk["M"], "how": "echo '%s' | driver" % line}, True)
         if tau is not None:
             nsym["sym" if all(k == v for k, v in tau.items()) else "asym"] += 1
+        elif not pf and (cs, "transposition") not in seen_prop:
+            seen_prop.add((cs, "transposition"))
+            c.report("im-transposition:" + desc, "interaction-matrix structure of %s: two pairs of the same class have transposed pairs in "
+                     "different classes" % desc, {"description": desc, "matrix": blk["M"]}, True)
         m = todo[(hcp, L)]
         if (m["n"], m["M"]) != (blk["n"], blk["M"]) and cs not in seen_corr:
             seen_corr.add(cs)
@@ -481,7 +489,12 @@ def check_interaction_matrices(c, drv, mdl):
                              {"documented": sorted(doc["rank%d" % r]), "code": sorted(real)}, True)
         if "matrix" in doc and doc["matrix"] != blk["M"]:
             doc_bad = True
-            ij = next((i, j) for i in range(12) for j in range(12) if doc["matrix"][i][j] != blk["M"][i][j])
+            ij = next(((i, j) for i in range(len(L)) for j in range(len(L))
+                       if i < len(doc["matrix"]) and j < len(doc["matrix"][i]) and doc["matrix"][i][j] != blk["M"][i][j]), None)
+            if ij is None:      # not even the same size
+                c.report("doc:singlecrystal.md:interaction-matrix-size", "docs/web/singlecrystal.md prints a %d x %d matrix for FCC <1,-1,0>{1,1,1}; "
+                         "the code returns %d systems" % (len(doc["matrix"]), len(doc["matrix"]), len(L)), {"code": blk["M"]}, True)
+                return {"doc_bad": False, "n": n_real}
             c.report("doc:singlecrystal.md:interaction-matrix-sample:fcc:1,-1,0|1,1,1",
                      "docs/web/singlecrystal.md prints, as the output of `mfront-query --interaction-matrix` for FCC <1,-1,0>{1,1,1}, a matrix "
                      "that the code does not return: e.g. pair (%s : %s) has rank %d in the sample and %d in the code (and in the "
@@ -501,10 +514,17 @@ def main(c):
               "(int <-> extracted Z, printing), the Python comparison up to sign and the Python statement of the property",
               "C++ int arithmetic taken as arithmetic on Z (no overflow for the indices used in practice)")
     # Coq: everything that does not depend on the observations, compiled while the drivers run
-    coq_files = ["C56Spec.v", "C56Model.v", "C56IMSpec.v", "C56IMModel.v", "C56IMProofs.v", "Properties_C56_im.v"]
+    coq_files = ["C56Spec.v", "C56Model.v", "C56IMSpec.v", "C56IMModel.v", "C56IMGeneral.v", "Properties_C56_im_general.v",
+                 "C56IMCubicEquiv.v", "Properties_C56_im_cubic.v", "C56IMProofs.v", "Properties_C56_im.v"]
     if not c.quick():
         coq_files += ["C56IMProofsMore.v", "Properties_C56_im_more.v"]
     coq_files += ["C56Proofs.v", "C56Geometry.v", "Properties_C56.v"]
+    # which of the two HCP closure files will be needed is known for sure only after the tie; the witness family of the
+    # refuted variant tells it in advance (3 systems: pinned generator, 6: both signs of the fourth index), so that the
+    # (slow) file can be compiled in the thread too; if the tie decides otherwise the other file is compiled at the end
+    rc, out, err = c.run([drv], input="hcp 1 1 -2 -3 1 1 -2 2\n", timeout=120)
+    guess = "Properties_C56_hcp_closed.v" if out.count("\nSYS ") == 6 else "Properties_C56_hcp_refuted.v"
+    coq_files.append(guess)
     coq_box = {}
 
     def coq_job():
@@ -719,6 +739,13 @@ def main(c):
 
     # ---------------------------------------------------------------- interaction-matrix structure
     im = check_interaction_matrices(c, drv, mdl)
+    if im:
+        c.coverage["rule"] += ("; interaction-matrix structure (rank(), getRank of every ordered pair of systems, class sizes) of %d descriptions: "
+                               "every family with |indices| <= 2 without null vector (FCC and HCP all, BCC and Cubic %s), %s of families with "
+                               "|indices| <= 2 (one representative per orbit of families), a few descriptions with duplicated, three and four "
+                               "families; compared entry for entry with the extracted model of numodis::Hardening run on the list of systems "
+                               "returned by the code" % (im["n"], "one per orbit" if c.quick() else "all",
+                                                         "28 pairs (2 usual, 26 seeded)" if c.quick() else "every unordered pair of orbits"))
 
     # ---------------------------------------------------------------- proofs
     # the files that do not depend on what was observed are compiled in a thread started at the beginning of the run; the
@@ -729,15 +756,16 @@ def main(c):
         raise RuntimeError("Coq thread failed: %r" % coq_box.get("exc"))
     closure_observed = any(f.startswith("hcp:") for (f, _) in clause_fail.get("closure", []))
     files2 = []
-    if variant == "fixed" and not closure_observed:
-        files2.append("Properties_C56_hcp_closed.v")
-    else:
-        files2.append("Properties_C56_hcp_refuted.v")
+    wanted = "Properties_C56_hcp_closed.v" if (variant == "fixed" and not closure_observed) else "Properties_C56_hcp_refuted.v"
+    if wanted != guess:
+        files2.append(wanted)
+        c.notes.append("the HCP closure file compiled in advance (%s) is not the one the tie selects (%s): both are theorems about "
+                       "the model, the second is the one that describes this tree" % (guess, wanted))
     if im and im["doc_bad"]:
         files2.append("Properties_C56_im_doc_refuted.v")
     c.log("proofs (files chosen from the observations: %s)" % files2)
     results = [res]
-    if res.ok:
+    if res.ok and files2:
         results.append(c.coq(files2, timeout=900))
     for r in results:
         if not r.ok:
